@@ -18,6 +18,8 @@ class Scheduler:
         self.done = set()
         self.trace = []
         self.merge_first = set()          # threads whose start segment and first block are one atomic block
+        self.clean = {}                   # thread -> no shared field touched since its last lock-acquisition gate
+        self.locks = []                   # all gated locks
 
     def gate(self, name, what):
         """called by thread `name` at a yield point: give up the processor and wait for its next slot"""
@@ -26,6 +28,7 @@ class Scheduler:
                 # the first yield point of a thread continues the block that began at its start
                 self.merge_first.discard(name)
                 self.trace.append((name, what + " (same block)"))
+                self.clean[name] = what.startswith("acquire")
                 return
             if self.running == name:
                 self.running = None
@@ -38,6 +41,7 @@ class Scheduler:
             self.running = name
             self.pos += 1
             self.trace.append((name, what))
+            self.clean[name] = what.startswith("acquire")
 
     def _next_is(self, name):
         # skip slots of threads that have already finished (their remaining blocks had a false path condition in the model)
@@ -74,10 +78,12 @@ class GateLock:
     def __init__(self, real, sched, name):
         self.real, self.sched, self.name = real, sched, name
         self.depth = {}
+        sched.locks.append(self)
 
     def __enter__(self):
         me = threading.current_thread().name
-        if self.depth.get(me, 0) == 0 and me in _REGISTERED:
+        nested_clean = self.sched.clean.get(me) and any(l is not self and l.depth.get(me, 0) > 0 for l in self.sched.locks)
+        if self.depth.get(me, 0) == 0 and me in _REGISTERED and not nested_clean:
             import sys
             self.sched.gate(me, "acquire " + self.name + " in " + sys._getframe(1).f_code.co_name)
         self.depth[me] = self.depth.get(me, 0) + 1
@@ -120,6 +126,7 @@ def gate_object(obj, fields, sched, und_names):
         me = threading.current_thread().name
         if me not in _REGISTERED or name not in fields:
             return False
+        sched.clean[me] = False
         lk = fields[name]
         if lk and name not in und_names and locks[lk].held_by_me():
             return False
